@@ -440,6 +440,62 @@ def rule_format_strings(ck: Check, repo: Repo, rid: str = "R6") -> None:
 
 
 
+# ------------------------------------------------------------------ R8: handlers that convert an error still convert it
+CONVERTING_HANDLERS = {
+    # (function, exception types as written) -> confirmed by reading on the pinned tree: the handler ENDS IN A RAISE (it converts
+    # the error into the documented one or lets it propagate); keyed by names, never by position
+    ("reuse.cli.annotate.get_template", "TemplateNotFound"),
+    ("reuse.cli.common.ClickObj.project", "GlobalLicensingParseError"),
+    ("reuse.cli.common.ClickObj.project", "(GlobalLicensingConflictError, OSError)"),
+    ("reuse.cli.common.spdx_identifier", "(ExpressionError, ParseError)"),
+    ("reuse.extract.extract_reuse_info", "(ExpressionError, ParseError)"),
+    ("reuse.global_licensing._InstanceOfValidator.__call__", "TypeError"),
+    ("reuse.global_licensing._str_to_global_precedence", "ValueError"),
+    ("reuse.global_licensing._str_to_set_of_expr", "(ExpressionError, ParseError)"),
+    ("reuse.global_licensing.ReuseDep5.from_file", "UnicodeDecodeError"),
+    ("reuse.global_licensing.ReuseDep5.from_file", "(DebianError, ValueError)"),
+    ("reuse.global_licensing.ReuseTOML.from_dict", "GlobalLicensingParseError"),
+    ("reuse.global_licensing.ReuseTOML.from_toml", "tomlkit.exceptions.TOMLKitError"),
+    ("reuse.global_licensing.ReuseTOML.from_file", "UnicodeDecodeError"),
+    ("reuse.header.create_header", "(ExpressionError, ParseError)"),
+}
+
+
+def _always_leaves(stmts: list) -> bool:
+    """Every path through *stmts* reaches a raise (statements behind a continue / break / return are not reached)."""
+    for st in stmts:
+        if isinstance(st, ast.Raise):
+            return True
+        if isinstance(st, (ast.Return, ast.Continue, ast.Break)):
+            return False
+        if isinstance(st, ast.If) and st.orelse and _always_leaves(st.body) and _always_leaves(st.orelse):
+            return True
+        if isinstance(st, ast.Expr) and isinstance(st.value, ast.Call) and ast.unparse(st.value.func) in ("sys.exit", "ctx.exit", "ctx.fail"):
+            return True
+    return False
+
+
+def rule_converting_handlers(ck: Check, repo: Repo, rid: str = "R8") -> None:
+    r = ck.rule(rid, "a handler that converted an error into the documented one (or re-raised it) still leaves by a raise: the error is not swallowed")
+    seen = set()
+    for q, fn in repo.functions.items():
+        for n in ast.walk(fn):
+            if isinstance(n, ast.ExceptHandler) and n.type is not None:
+                key = (q, ast.unparse(n.type))
+                if key not in CONVERTING_HANDLERS:
+                    continue
+                seen.add(key)
+                ok = _always_leaves(n.body) and any(isinstance(x, ast.Raise) for x in ast.walk(n))
+                r.instance(f"{q}:{key[1]}", {"function": q, "handles": key[1], "leaves_by_raise": ok}, q)
+                if not ok:
+                    r.violation(q, f"the handler of {key[1]} completes normally",
+                                "the error it used to convert is swallowed: what follows runs with a value that was never produced (an unbound"
+                                " name, a half-filled set) or the broken input is silently accepted - instead of the documented usage / parse"
+                                " error naming the file", repo.loc(n))
+    # handlers that vanished are not judged here: the escape analysis (R1) reports an exception that now leaves the command
+    r.floor(10, "confirmed converting handlers still present", got=len(seen))
+
+
 def run(ck: Check, repo: Repo) -> None:
     ck.explanation = (
         "Exception-escape analysis: for every function the set of (exception class, origin) pairs that leave it is"
@@ -466,6 +522,7 @@ def run(ck: Check, repo: Repo) -> None:
     rule_source(ck, repo)
     rule_decode_modes(ck, repo)
     rule_format_strings(ck, repo)
+    rule_converting_handlers(ck, repo)
     # a glob of REUSE.toml becomes a regular expression that is compiled while the file is loaded: it must be well formed
     # for EVERY glob, or re.error (not a parse error of the file) ends the run (shared with C05)
     from . import c05
